@@ -5,6 +5,7 @@ import numpy as np
 from hypothesis import strategies as st
 
 from vlib import util
+from vlib import defaults
 from vlib.core import Part
 
 PROPERTY = "C09"
@@ -376,4 +377,7 @@ PARTS = [
     Part("srs", oracle_srs, strategy=srs_cases, quick=(8, 12), thorough=(16, 120)),
     Part("srs_error", oracle_srs_error, strategy=srs_cases, quick=(4, 6), thorough=(8, 40)),
     Part("fdepsd", oracle_fdepsd, strategy=fde_cases, quick=(4, 4), thorough=(16, 30)),
+    # documented defaults: leaving a keyword out = passing its documented value (vlib/defaults.py)
+    Part("defaults", defaults.make_oracle("C09"), enum=defaults.make_enum(), quick=(1, None), thorough=(1, None),
+         exhaustive=True),
 ]
